@@ -26,13 +26,6 @@ def search_streams(tier, seed, diffs):
 
 
 MANIFEST = dict(
-    level_text=("Theorems (Coq): C03_check_witness_correct (the executable checker decides witness_ok - names/order/types, initial values "
-                "agree with the init expressions, some choice of the next-less states makes the run through the witness' inputs satisfy all "
-                "constraints and end with exactly the listed bad states - for ALL well-formed systems and witnesses), "
-                "C03_accepted_witness_is_execution. Tie to /repo: every Fail witness produced by the real patronus::mc::bmc (four solver "
-                "profiles, z3 model-diversity settings, cvc5) is checked by the extracted check_witness against the ORIGINAL system and "
-                "replayed through patronus::sim::Interpreter."),
-    level_note=("Trusted: Coq kernel; witnesses are those the installed solvers happen to produce (diversity forced by seeds/phase "
-                "settings and a second solver), not all legal models. The theorem 'bmc's witness is always witness_ok' (get_witness over "
-                "an abstract solver) is not proved."),
+    level_text="Theorems (Coq): C03_bmc_witness_is_execution - for every system in the domain of C04_script3_wf (well-formed, distinct inputs, acyclic init dependencies), every bound and both checking modes, if the model of bmc.rs + get_witness over a solver whose sat answers come with a model returns Fail w, then w's step-0 valuation is initial and the run through w's inputs has k <= k_max steps, satisfies all constraints at every step and has EXACTLY the reported bad states at its last step; C03_bmc_witness_accepted, C03_bmc_witness_shortest (least depth under a complete solver); C03_check_witness_correct (the executable checker decides witness_ok for ALL well-formed systems and witnesses), C03_accepted_witness_is_execution. Tie to /repo: every Fail witness of the real patronus::mc::bmc / pdr (four solver profiles, z3 model-diversity settings, cvc5) is checked by the extracted check_witness, replayed in the interpreter, and the recorded get-value calls must equal the model's query list and yield the same witness.",
+    level_note="Trusted: Coq kernel; the solver is a Section hypothesis (sat answers come with a model of the asserted script) in C03_bmc_witness_is_execution; in the tie the witnesses are those the installed solvers happen to produce (diversity forced by seeds/phase settings and a second solver). PDR's witness path, the get-value text layer (C14) and check_constraints=true/Unknown are not modelled.",
 )
